@@ -1,6 +1,7 @@
 package fakesock
 
 import (
+	"os"
 	"verifharness/pkg/vh"
 )
 
@@ -103,7 +104,7 @@ func GenCase(r *vh.Rng, flavor string) Case {
 	if r.Chance(15) {
 		stale = r.Intn(n)
 	}
-	if r.Chance(12) {
+	if r.Chance(12) || os.Getenv("FAKESOCK_FAMILY") == "blocked" { // the variable is a debugging aid: every case gets the family
 		blocked = r.Intn(n)
 	}
 	for i := 0; i < n; i++ {
